@@ -36,4 +36,193 @@ theorem tmap_id_unique (tm : TMap) (hnd : (tm.map tKey).Nodup) (k : Name × Dose
   have := inj_of_nodup_map tKey tm hnd _ _ ha hb rfl
   exact (Prod.mk.inj (Prod.mk.inj this).2).2
 
+/-! ### exactly when `Screen.mk?` answers `.other` (an id array longer than the data) -/
+
+theorem flatten_length_eq_of_singletons (hits : List (List Int)) (h : ∀ x ∈ hits, x.length = 1) : hits.flatten.length = hits.length := by
+  induction hits with
+  | nil => rfl
+  | cons x hits ih =>
+    simp only [List.flatten_cons, List.length_append, List.length_cons]
+    rw [ih (fun y hy => h y (by simp [hy])), h x (by simp)]; omega
+
+/-- all rows matched at least once: the flattened result is longer than the data iff some row matched twice or more -/
+theorem flatten_length_ne_iff (hits : List (List Int)) (hne : ∀ h ∈ hits, h ≠ []) :
+    hits.flatten.length ≠ hits.length ↔ ∃ h ∈ hits, 2 ≤ h.length := by
+  constructor
+  · intro hlen
+    apply Classical.byContradiction
+    intro hno
+    apply hlen
+    apply flatten_length_eq_of_singletons
+    intro x hx
+    have h1 : 0 < x.length := List.length_pos_iff.mpr (hne x hx)
+    have h2 : ¬ 2 ≤ x.length := fun h => hno ⟨x, hx, h⟩
+    omega
+  · rintro ⟨x, hx, h2⟩ hlen
+    have := hits_singletons hits hne hlen
+    rw [this] at hx
+    obtain ⟨i, _, rfl⟩ := List.mem_map.mp hx
+    simp at h2
+
+theorem encodeTreatments_error (ctrl : Name) (xs : List (Name × Dose)) (ex : Option TMap) (e : Err)
+    (h : encodeTreatments ctrl xs ex = .error e) : e = .valueError := by
+  cases ex <;> simp only [encodeTreatments] at h <;> split at h <;> first | (injection h with h; exact h.symm) | cases h
+
+theorem encode1d_error (xs : List Name) (ex : Option SMap) (e : Err) (h : encode1d xs ex = .error e) : e = .valueError := by
+  cases ex <;> simp only [encode1d] at h <;> split at h <;> first | (injection h with h; exact h.symm) | cases h
+
+/-- the mapping the encoders use: the supplied one, else the fresh one -/
+def effTMap (r : Raw) : TMap := match r.tmap with | some m => m | none => freshTMap r.ctrl (allKeys r)
+def effSMap (r : Raw) : SMap := match r.smap with | some m => m | none => freshSMap r.snames
+
+/-- **`Screen.mk?` answers `.other` exactly when** every shape / density check passes, every cell key is found in the treatment
+    mapping, and either some cell key of the data is listed TWICE OR MORE in that mapping, or (all cell keys listed once and) every
+    sample name is found but some sample name of the data is listed twice or more in the sample mapping. -/
+theorem mk?_other_iff (r : Raw) :
+    mk? r = .error .other ↔
+      WellShaped r ∧ tmapBad r = false ∧ smapBad r = false ∧ (∀ k ∈ allKeys r, tLookup (effTMap r) k ≠ []) ∧
+        ((∃ k ∈ allKeys r, 2 ≤ (tLookup (effTMap r) k).length) ∨
+         ((∀ k ∈ r.snames, sLookup (effSMap r) k ≠ []) ∧ ∃ k ∈ r.snames, 2 ≤ (sLookup (effSMap r) k).length)) := by
+  rw [mk?_eq_mkStaged]
+  unfold mkStaged
+  constructor
+  · intro h
+    split at h; · cases h
+    rename_i c1
+    split at h; · cases h
+    rename_i c2
+    split at h; · cases h
+    rename_i c3
+    split at h; · cases h
+    rename_i c4
+    split at h; · cases h
+    rename_i c5
+    split at h; · cases h
+    rename_i c6
+    split at h; · cases h
+    rename_i c7
+    split at h; · cases h
+    rename_i c8
+    simp only [Bool.or_eq_true, bne_iff_ne, ne_eq, not_or, Decidable.not_not, List.any_eq_true, not_exists, not_and,
+      Bool.not_eq_true, Bool.not_eq_eq_eq_not, Bool.not_true] at c1 c2 c3 c4 c5 c6 c7 c8
+    have w : WellShaped r :=
+      { len_tdoses := c1.1.1, len_snames := c1.1.2, len_pnames := c1.2, arity_tnames := c2.1, arity_tdoses := c2.2,
+        mask_needs_obs := c3, len_obs := c4, len_mask := c5, uniform := by simpa using c6 }
+    cases ht : encodeTreatments r.ctrl (allKeys r) r.tmap with
+    | error e =>
+      rw [ht, except_bind_error] at h
+      injection h with h
+      have := encodeTreatments_error _ _ _ _ ht
+      rw [h] at this; cases this
+    | ok t =>
+      rw [ht, except_bind_ok] at h
+      obtain ⟨tf, tm⟩ := t
+      obtain ⟨htm, hcov, hids⟩ := (encodeTreatments_ok_iff _ _ _ _ _).mp ht
+      have htm' : tm = effTMap r := htm
+      subst htm'
+      have hne : ∀ x ∈ (allKeys r).map (tLookup (effTMap r)), x ≠ [] := by
+        intro x hx; obtain ⟨k, hk, rfl⟩ := List.mem_map.mp hx; exact hcov k hk
+      refine ⟨w, c7, c8, hcov, ?_⟩
+      split at h
+      · rename_i c9
+        left
+        have hl : tf.length ≠ ((allKeys r).map (tLookup (effTMap r))).length := by
+          simp only [bne_iff_ne, ne_eq] at c9
+          rw [List.length_map, length_allKeys r w.len_tdoses]; exact c9
+        rw [hids] at hl
+        obtain ⟨x, hx, h2⟩ := (flatten_length_ne_iff _ hne).mp hl
+        obtain ⟨k, hk, rfl⟩ := List.mem_map.mp hx
+        exact ⟨k, hk, h2⟩
+      · rename_i c9
+        right
+        cases hs : encode1d r.snames r.smap with
+        | error e =>
+          rw [hs, except_bind_error] at h
+          injection h with h
+          have := encode1d_error _ _ _ hs
+          rw [h] at this; cases this
+        | ok sm =>
+          rw [hs, except_bind_ok] at h
+          obtain ⟨sf, sm⟩ := sm
+          obtain ⟨hsm, hscov, hsids⟩ := (encode1d_ok_iff _ _ _ _).mp hs
+          have hsm' : sm = effSMap r := hsm
+          subst hsm'
+          refine ⟨hscov, ?_⟩
+          split at h
+          · rename_i c10
+            have hne' : ∀ x ∈ r.snames.map (sLookup (effSMap r)), x ≠ [] := by
+              intro x hx; obtain ⟨k, hk, rfl⟩ := List.mem_map.mp hx; exact hscov k hk
+            have hl : sf.length ≠ (r.snames.map (sLookup (effSMap r))).length := by
+              simp only [bne_iff_ne, ne_eq] at c10
+              rw [List.length_map, w.len_snames]; exact c10
+            rw [hsids] at hl
+            obtain ⟨x, hx, h2⟩ := (flatten_length_ne_iff _ hne').mp hl
+            obtain ⟨k, hk, rfl⟩ := List.mem_map.mp hx
+            exact ⟨k, hk, h2⟩
+          · exfalso
+            cases hp : encode1d r.pnames none with
+            | error e =>
+              rw [hp, except_bind_error] at h
+              injection h with h
+              have := encode1d_error _ _ _ hp
+              rw [h] at this; cases this
+            | ok pm => rw [hp, except_bind_ok] at h; cases h
+  · rintro ⟨w, c7, c8, hcov, hdup⟩
+    rw [if_neg (by simp [w.len_tdoses, w.len_snames, w.len_pnames])]
+    rw [if_neg (by
+      simp only [Bool.or_eq_true, List.any_eq_true, bne_iff_ne, ne_eq, not_or, not_exists, not_and, Decidable.not_not]
+      exact ⟨w.arity_tnames, w.arity_tdoses⟩)]
+    rw [if_neg (by simp [w.mask_needs_obs])]
+    rw [if_neg (by simp [w.len_obs])]
+    rw [if_neg (by simp [w.len_mask])]
+    rw [if_neg (by simp [w.uniform])]
+    rw [if_neg (by simp [c7])]
+    rw [if_neg (by simp [c8])]
+    have ht : encodeTreatments r.ctrl (allKeys r) r.tmap = .ok (((allKeys r).map (tLookup (effTMap r))).flatten, effTMap r) :=
+      (encodeTreatments_ok_iff _ _ _ _ _).mpr ⟨rfl, hcov, rfl⟩
+    have hne : ∀ x ∈ (allKeys r).map (tLookup (effTMap r)), x ≠ [] := by
+      intro x hx; obtain ⟨k, hk, rfl⟩ := List.mem_map.mp hx; exact hcov k hk
+    rw [ht, except_bind_ok]
+    by_cases hd : ∃ k ∈ allKeys r, 2 ≤ (tLookup (effTMap r) k).length
+    · obtain ⟨k, hk, h2⟩ := hd
+      have := (flatten_length_ne_iff _ hne).mpr ⟨_, List.mem_map.mpr ⟨k, hk, rfl⟩, h2⟩
+      rw [List.length_map, length_allKeys r w.len_tdoses] at this
+      rw [if_pos (by simpa using this)]
+    · have hl : ((allKeys r).map (tLookup (effTMap r))).flatten.length = r.tnames.length * r.arity := by
+        have := flatten_length_ne_iff _ hne
+        have h' : ¬ ((allKeys r).map (tLookup (effTMap r))).flatten.length ≠ ((allKeys r).map (tLookup (effTMap r))).length := by
+          rw [this]; rintro ⟨x, hx, h2⟩
+          obtain ⟨k, hk, rfl⟩ := List.mem_map.mp hx
+          exact hd ⟨k, hk, h2⟩
+        rw [List.length_map, length_allKeys r w.len_tdoses] at h'
+        exact Decidable.not_not.mp h'
+      rw [if_neg (by simp [hl])]
+      rcases hdup with hd' | ⟨hscov, k, hk, h2⟩
+      · exact absurd hd' hd
+      · have hs : encode1d r.snames r.smap = .ok ((r.snames.map (sLookup (effSMap r))).flatten, effSMap r) :=
+          (encode1d_ok_iff _ _ _ _).mpr ⟨rfl, hscov, rfl⟩
+        have hne' : ∀ x ∈ r.snames.map (sLookup (effSMap r)), x ≠ [] := by
+          intro x hx; obtain ⟨k, hk, rfl⟩ := List.mem_map.mp hx; exact hscov k hk
+        rw [hs, except_bind_ok]
+        have := (flatten_length_ne_iff _ hne').mpr ⟨_, List.mem_map.mpr ⟨k, hk, rfl⟩, h2⟩
+        rw [List.length_map, w.len_snames] at this
+        rw [if_pos (by simpa using this)]
+
+/-- a key is listed at most once in a table of pairwise different keys -/
+theorem tLookup_length_le_one (tm : TMap) (hnd : (tm.map tKey).Nodup) (k : Name × Dose) : (tLookup tm k).length ≤ 1 := by
+  cases h : tLookup tm k with
+  | nil => simp
+  | cons i rest =>
+    have hm : (k.1, k.2, i) ∈ tm := mem_of_mem_tLookup tm k i (by rw [h]; simp)
+    have := tLookup_of_mem tm hnd k i hm
+    rw [h] at this; rw [this]; simp
+
+theorem sLookup_length_le_one (sm : SMap) (hnd : (sm.map (·.1)).Nodup) (k : Name) : (sLookup sm k).length ≤ 1 := by
+  cases h : sLookup sm k with
+  | nil => simp
+  | cons i rest =>
+    have hm : (k, i) ∈ sm := mem_of_mem_sLookup sm k i (by rw [h]; simp)
+    have := sLookup_of_mem sm hnd k i hm
+    rw [h] at this; rw [this]; simp
+
 end Batchie.Screen
